@@ -181,6 +181,19 @@ Theorem convergence_with_interrupted_runs :
 Proof. exact convergence_with_interrupted_runs_thm. Qed.
 Print Assumptions convergence_with_interrupted_runs.
 
+(* ... and in such histories too no due point is skipped: fewer than k rows have been fed since the last Regular column *)
+Theorem no_overdue_point_with_interrupted_runs :
+  forall (X M V D St O Sc : Type) (zero : St) (plus : St -> St -> St) (contrib : X * D -> St) (comp : St -> O),
+  (forall a b c : St, plus a (plus b c) = plus (plus a b) c) ->
+  (forall a : St, plus a zero = a) ->
+  (forall a : St, plus zero a = a) ->
+  forall (sf : M -> V) (model : V -> D) (disc : O -> Sc) (k : nat) (hs : list (container X M * option nat)),
+  1 <= k -> Forall (fun h => c_rows (fst h) <> [] /\ 1 <= c_bs (fst h)) hs ->
+  let st := hist_seq X M V D St O Sc zero plus contrib comp sf model disc (Some k) (fresh St O Sc zero) hs in
+  processed st < last_regular (cols st) + k.
+Proof. exact no_overdue_point_with_interrupted_runs_thm. Qed.
+Print Assumptions no_overdue_point_with_interrupted_runs.
+
 (* step 5, batch size 2 (derived batch size 2).  A (7 traces): batches end at 2, 4, 6 (Regular at 6), 7 (Remainder at 7).
    B (9 traces) raises while its batch number 3 is prepared: it fed 3 batches = 6 rows, ending at 9, 11 (Regular: 11 - 6 >= 5), 13;
    no final column, the marks stay [11; 13].  C (4 traces): 15, 17 (Regular: 17 - 11 >= 5), the run ends on a point. *)
